@@ -9,6 +9,7 @@ package combinator
 import (
 	"sync/atomic"
 
+	"github.com/opsidian/parsley/ast"
 	"github.com/opsidian/parsley/data"
 	"github.com/opsidian/parsley/parser"
 	"github.com/opsidian/parsley/parsley"
@@ -29,6 +30,11 @@ func Memoize(p parsley.Parser) parser.Func {
 		}
 
 		node, cp, err := p.Parse(ctx, leftRecCtx.Inc(parserIndex), pos)
+		if nl, ok := node.(ast.NodeList); ok {
+			// the list is shared from here on (by the cache and by every caller that gets it from
+			// the cache): cut off its spare capacity so that nobody can append into it in place
+			node = nl[:len(nl):len(nl)]
+		}
 		leftRecCtx = leftRecCtx.Filter(cp)
 
 		res := &parsley.Result{
